@@ -407,9 +407,15 @@ class PDFStandardSecurityHandler:
         self.init_key()
 
     def init_params(self) -> None:
+        for key in ("R", "P", "O", "U"):
+            if key not in self.param:
+                raise PDFEncryptionError(
+                    "Encryption dictionary lacks /%s: param=%r" % (key, self.param)
+                )
         self.v = int_value(self.param.get("V", 0))
         self.r = int_value(self.param["R"])
-        self.p = uint_value(self.param["P"], 32)
+        # a 32-bit quantity, whatever integer the file gives
+        self.p = uint_value(self.param["P"], 32) & 0xFFFFFFFF
         self.o = str_value(self.param["O"])
         self.u = str_value(self.param["U"])
         self.length = int_value(self.param.get("Length", 40))
@@ -786,9 +792,11 @@ class PDFDocument:
                 continue
             # If there's an encryption info, remember it.
             if "Encrypt" in trailer:
+                id_value = None
                 if "ID" in trailer:
-                    id_value = list_value(trailer["ID"])
-                else:
+                    # two byte strings
+                    id_value = [str_value(v) for v in list_value(trailer["ID"])]
+                if not id_value:
                     # Some documents may not have a /ID, use two empty
                     # byte strings instead. Solves
                     # https://github.com/pdfminer/pdfminer.six/issues/594
